@@ -581,3 +581,102 @@ def gen_transform_calls():
 
 
 GENERATORS.append(gen_transform_calls)
+
+
+# ------------------------------------------------------------------ file reader: where the filter-option DEFAULTS live (process histories)
+MUTATORS = ('update', 'append', 'extend', 'pop', 'popitem', 'clear', 'setdefault', 'insert', 'remove', 'add', 'discard', 'sort', 'reverse',
+            '__setitem__', '__delitem__', 'fill', 'resize', 'put')
+
+
+def gen_reader_opts():
+    """(1) `defaults`: every `<p>.get('<key>', <literal>)` of the reader module whose receiver is a function parameter (the
+    caller's filter dict), in source order -- the table "option = the call's own value, else this literal";
+    (2) `sharedTables`: module-level names bound to mutable containers that some function of the module reads;
+    (3) `writtenModuleNames`: module-level names that a function rebinds (`global`) or mutates in place, directly or through
+    a local alias (`kwargs = _table; kwargs.update(...)`, `_table[k] = v`, `del`, augmented assignment)."""
+    defaults, shared, written, echo = [], [], [], {}
+    path = os.path.join(tr.REPO, READER_FILE)
+    if os.path.exists(path):
+        tree = tr.parse(READER_FILE)
+        modnames, containers = set(), set()
+        for node in tree.body:
+            if isinstance(node, (ast.Assign, ast.AnnAssign, ast.AugAssign)):
+                tgts = node.targets if isinstance(node, ast.Assign) else [node.target]
+                for t in tgts:
+                    for n in ast.walk(t):
+                        if isinstance(n, ast.Name):
+                            modnames.add(n.id)
+                            v = node.value
+                            if isinstance(v, (ast.Dict, ast.List, ast.Set, ast.DictComp, ast.ListComp, ast.SetComp)) or \
+                                    (isinstance(v, ast.Call) and not isinstance(v, ast.Constant)):
+                                containers.add(n.id)
+        fns = [n for n in ast.walk(tree) if isinstance(n, (ast.FunctionDef, ast.AsyncFunctionDef))]
+        for fn in fns:
+            params = {a.arg for a in fn.args.args + fn.args.kwonlyargs + fn.args.posonlyargs}
+            local_stores = {n.id for n in ast.walk(fn) if isinstance(n, ast.Name) and isinstance(n.ctx, ast.Store)}
+            globl = {x for n in ast.walk(fn) if isinstance(n, (ast.Global, ast.Nonlocal)) for x in n.names}
+            # local aliases of module-level names
+            alias = {}
+            for n in ast.walk(fn):
+                if isinstance(n, ast.Assign) and isinstance(n.value, ast.Name) and n.value.id in modnames and n.value.id not in params:
+                    for t in n.targets:
+                        if isinstance(t, ast.Name):
+                            alias[t.id] = n.value.id
+
+            def module_obj(e):
+                """the module-level name an expression denotes (directly or through an alias), else None"""
+                if isinstance(e, ast.Name):
+                    if e.id in alias:
+                        return alias[e.id]
+                    if e.id in modnames and e.id not in params and (e.id not in local_stores or e.id in globl):
+                        return e.id
+                return None
+            for g in sorted(globl & modnames):
+                written.append('%s: global %s' % (fn.name, g))
+            for n in ast.walk(fn):
+                if isinstance(n, ast.Call) and isinstance(n.func, ast.Attribute):
+                    m = module_obj(n.func.value)
+                    if m is not None and n.func.attr in MUTATORS:
+                        written.append('%s: %s.%s(...)%s' % (fn.name, m, n.func.attr, '' if isinstance(n.func.value, ast.Name) and n.func.value.id == m else ' through alias ' + src_text(n.func.value)))
+                    if n.func.attr == 'get' and isinstance(n.func.value, ast.Name) and n.func.value.id in params and len(n.args) >= 1 \
+                            and isinstance(n.args[0], ast.Constant) and isinstance(n.args[0].value, str):
+                        d = n.args[1] if len(n.args) > 1 else None
+                        tok = 'None' if d is None else (src_text(d) if isinstance(d, ast.Constant) or tr.const_int(d) is not None else 'EXPR:' + src_text(d)[:40])
+                        defaults.append((n.lineno, n.col_offset, n.args[0].value, tok, fn.name))
+                tg = []
+                if isinstance(n, ast.Assign):
+                    tg = n.targets
+                elif isinstance(n, (ast.AugAssign, ast.AnnAssign)):
+                    tg = [n.target]
+                elif isinstance(n, ast.Delete):
+                    tg = n.targets
+                for t in tg:
+                    for s in ast.walk(t):
+                        if isinstance(s, (ast.Subscript, ast.Attribute)) and isinstance(s.ctx, (ast.Store, ast.Del)):
+                            m = module_obj(s.value)
+                            if m is not None:
+                                written.append('%s: %s written (%s)' % (fn.name, m, src_text(s)[:40]))
+            for n in ast.walk(fn):
+                if isinstance(n, ast.Name) and isinstance(n.ctx, ast.Load) and n.id in containers and n.id not in params and \
+                        (n.id not in local_stores or n.id in globl):
+                    shared.append('%s reads %s' % (fn.name, n.id))
+        defaults.sort()
+    esc = lambda s: s.replace('\\', '/').replace('"', "'").replace('\n', ' ')      # noqa
+    lines = ['-- GENERATED by harness/translate_c15.py from nitime/fmri/io.py: where the reader\'s filter-option defaults live. DO NOT EDIT.',
+             'namespace Nitime.Generated.ReaderOpts', '',
+             '/-- `<filter dict>.get(\'<key>\', <literal>)` sites of the reader, in source order: (key, default token) -/',
+             'def defaults : List (String × String) :=', '  [']
+    lines.append(',\n'.join('   -- %s:%d in %s\n   ("%s", "%s")' % (READER_FILE, ln, fnn, esc(k), esc(tok)) for ln, _, k, tok, fnn in defaults))
+    lines += ['  ]', '',
+              '/-- module-level mutable containers read inside functions of the reader module (state shared between calls) -/',
+              'def sharedTables : List String :=\n  [%s]' % ', '.join('"%s"' % esc(s) for s in sorted(set(shared))), '',
+              '/-- module-level names rebound or mutated in place inside functions (directly or through a local alias) -/',
+              'def writtenModuleNames : List String :=\n  [%s]' % ', '.join('"%s"' % esc(s) for s in sorted(set(written))), '',
+              'end Nitime.Generated.ReaderOpts', '']
+    echo['defaults'] = ['%s=%s' % (k, tok) for _, _, k, tok, _ in defaults]
+    echo['sharedTables'] = sorted(set(shared))
+    echo['writtenModuleNames'] = sorted(set(written))
+    return 'ReaderOpts.lean', '\n'.join(lines), echo
+
+
+GENERATORS.append(gen_reader_opts)
